@@ -786,6 +786,12 @@ func (b *Builder) Finish() error {
 
 	b.finishedShards = map[string]string{}
 
+	if b.buildError != nil {
+		// We failed to install all of the new shards. Keep the old shards:
+		// removing them now would leave the repository with missing shards.
+		return b.buildError
+	}
+
 	for p := range toDelete {
 		// Don't delete compound shards, set tombstones instead.
 		if b.opts.ShardMerging && strings.HasPrefix(filepath.Base(p), "compound-") {
